@@ -2,25 +2,28 @@
 
 Spec: spec/sleep (Sleep = I-spec, one action per atomic operation of
 pkg/sleep, with the C19 properties as invariants/temporal formulas over ghost
-variables; MCSleep = cfg wrapper for Target; TraceSleepProp = P-spec as trace
-validator over calls/returns/observations only).
+variables; MCSleep = cfg wrapper for Target; SleepMon = the P-spec as a
+deterministic monitor over calls/returns/observations only, run by
+TraceSleepProp over recorded schedules and by GraphSleepProp over the product
+with the complete real-code graph).
 Binding: the real Sleeper/Wakers run under a gate scheduler (hooks H2; the
 gopark gate is one step, "parked" is a state read from waitingG / the
 runtime); the complete reachable graph of the real code is compared with TLC's
-graph of the I-spec (drift only), and every real transition plus seeded random
-schedules with up to 8 waker goroutines are validated by TLC against the
+graph of the I-spec (drift only); every path of the real graph and seeded
+random schedules with up to 8 waker goroutines are checked by TLC against the
 P-spec (violations).
 """
 import copy
 import json
 import os
+import re
 import vlib
 from vlib import cfg, MV
 
-MANIFEST = dict(technique='TLA+ I-spec Sleep at atomic-operation granularity model-checked by TLC (safety + liveness under fairness); complete reachable graph of the REAL Sleeper/Waker under a gate scheduler (gopark/goready as scheduled steps) compared edge-for-edge with the TLC graph; every real transition and seeded random schedules validated by TLC against a P-level linearizability/observation trace spec',
-                text='All interleavings of one sleeper goroutine (AddWaker, blocking/non-blocking Fetch, Done) with 2-4 waker goroutines x 1-2 Assert/Clear operations are explored by TLC on the I-spec (NoLostWake, NoInvented, Coalesce, NBSound, AfterDone, FetchLive, DoneLive). The real pkg/sleep is driven through every reachable state/transition at atomic-operation granularity, including asserts landing between the decision to sleep and commitSleep and Done racing with asserts; its graph must equal the model graph (drift otherwise). The verdict comes from TLC validating the observed call/return/parked/IsAsserted events of every real transition, and of random schedules with 8 waker goroutines, against TraceSleepProp; terminal states after Done re-attach every waker to a new sleeper through the public API.',
+MANIFEST = dict(technique='TLA+ I-spec Sleep at atomic-operation granularity model-checked by TLC (safety + liveness under fairness); complete reachable graph of the REAL Sleeper/Waker under a gate scheduler (gopark/goready as scheduled steps) compared edge-for-edge with the TLC graph; the P-spec (deterministic monitor SleepMon over call/return/parked/IsAsserted observations) model-checked by TLC over the product with the complete real-code graph (every path) and over seeded random schedules',
+                text='All interleavings of one sleeper goroutine (AddWaker, blocking/non-blocking Fetch, Done) with 2-4 waker goroutines x 1-2 Assert/Clear operations are explored by TLC on the I-spec (NoLostWake, NoInvented, Coalesce, NBSound, AfterDone, FetchLive, DoneLive). The real pkg/sleep is driven through every reachable state/transition at atomic-operation granularity, including asserts landing between the decision to sleep and commitSleep and Done racing with asserts; its graph must equal the model graph (drift otherwise). The verdict comes from TLC checking the C19 monitor against every path of that real-code graph (GraphSleepProp) and against random schedules with up to 8 waker goroutines (TraceSleepProp); terminal states after Done re-attach every waker to a new sleeper through the public API; thorough adds a free-running stress with pre-emption injected at the hook points under the race detector.',
                 design='5 C19',
-                note='Trusted: runtime gopark/goready, sync/atomic, the gate scheduler. NBSound is checked at the strength "Assert returned, unconsumed, and no Assert of that waker still in flight": an Assert that finds the waker already asserted returns before the earlier, still running Assert has queued it (by design of the algorithm), so a stricter reading is refuted by model and code alike. Order of returned wakers is not checked. "Nobody touches the sleeper after Done" is observed through the verif accessor (lists empty, waitingG zero) and through the public API on the old/new sleeper in terminal states. Bounded: <=3 wakers, <=4 waker goroutines x <=2 ops exhaustively; 8 goroutines in random schedules. Not run under the race detector (cgo toolchain unavailable in the check environment).')
+                note='Trusted: runtime gopark/goready, sync/atomic, the gate scheduler. NBSound is checked at the strength "Assert returned, unconsumed, and no Assert of that waker still in flight": an Assert that finds the waker already asserted returns before the earlier, still running Assert has queued it (by design of the algorithm), so a stricter reading is refuted by model and code alike. Order of returned wakers is not checked. "Nobody touches the sleeper after Done" is observed through the verif accessor (lists empty, waitingG zero) and through the public API on the old/new sleeper in terminal states. Bounded: <=3 wakers, <=4 waker goroutines x <=2 ops exhaustively; 8 goroutines in random schedules. The free-running stress under the race detector (thorough tier) is exploration-grade: a race report there is reported as inconclusive, not as a C19 verdict.')
 
 SPEC = ['sleep']
 INV = ['NoLostWake', 'NoInvented', 'Coalesce', 'NBSound', 'AfterDone', 'GhostOK', 'ParkOK', 'TypeOK', 'QueuedNotSlp']
@@ -81,9 +84,58 @@ def reset_ev(c, **kw):
     return d
 
 
-def graph_part(ctx, drv, c, tag, batch):
-    """Model graph vs complete real-code graph for configuration c (drift only);
-    an edge cover of the real graph is added to `batch` for the P-level validation."""
+def pgraph(ctx, c, g, name, corrupt=False):
+    """P-level verdict over the complete real-code graph g of configuration c: TLC explores the product
+    of the graph with the monitor SleepMon (module GraphSleepProp); a TLC deadlock is an observation the
+    P-spec rejects.  Returns None if every path is accepted, else dict(moves, events, rejected)."""
+    keys = list(g['states'].keys())
+    idx = {k: i + 1 for i, k in enumerate(keys)}
+    out = {k: [] for k in keys}
+    done = not corrupt
+    for n, e in enumerate(g['edges']):
+        evs = e['events'] or []
+        if not done:
+            for q, ev in enumerate(evs):
+                if ev.get('ev') == 'ret' and ev.get('op') == 'Fetch' and ev.get('ok'):
+                    evs = copy.deepcopy(evs)
+                    evs[q]['id'] = ev['id'] % 8 + 1          # the Fetch reports another waker
+                    done = True
+                    break
+        out[e['src']].append(dict(dst=idx[e['dst']], id=n, events=evs))
+    if not done:
+        raise vlib.Inconclusive('graph self-test: no successful Fetch in the real graph %s' % dcfg(c))
+    text = ''.join(json.dumps(dict(out=out[k])) + '\n' for k in keys)
+    gc = cfg(spec='GSpec', constants=dict(GNW=c[0], GPre=bool(c[4]), GInit=idx[g['init']]))
+    r = ctx.tlc('GraphSleepProp', gc, SPEC, name=name, files={'graph.ndjson': text}, nodeadlock=False, timeout=3000,
+                count=not corrupt)
+    if r.ok:
+        return None
+    if r.kind != 'deadlock':
+        raise vlib.Inconclusive('graph validation %s: unexpected TLC verdict %s %s\n%s' % (name, r.kind, r.violated, r.out[-2000:]))
+    # counterexample: the sequence of (node, ei, k) TLC printed
+    st = [(int(m.group(1)), None, None) for m in re.finditer(r'^/\\ node = (\d+)', r.out, re.M)]
+    eis = [int(m.group(1)) for m in re.finditer(r'^/\\ ei = (\d+)', r.out, re.M)]
+    ks = [int(m.group(1)) for m in re.finditer(r'^/\\ k = (\d+)', r.out, re.M)]
+    if not st or len(eis) != len(st) or len(ks) != len(st):
+        raise vlib.Inconclusive('graph validation %s: cannot read the counterexample\n%s' % (name, r.out[-2000:]))
+    moves, events, last = [], [], None
+    for (node, _a, _b), ei, k in zip(st, eis, ks):
+        if ei and (node, ei) != last:
+            last = (node, ei)
+            e = out[keys[node - 1]][ei - 1]
+            moves.append(g['edges'][e['id']]['move'])
+            cur = e['events']
+            events.append(cur)
+        if not ei:
+            last = None
+    node, ei, k = st[-1][0], eis[-1], ks[-1]
+    flat = [ev for evs in events[:-1] for ev in evs] + events[-1][:k + 1]
+    return dict(moves=moves, events=flat, rejected=flat[-1] if flat else None)
+
+
+def graph_part(ctx, drv, c, tag):
+    """Configuration c: model graph vs complete real-code graph (drift only), and the P-level verdict over
+    every path of the real graph.  Returns (graph, nondeterminism message or None, rejected?)."""
     rc = ctx.tlc('MCSleep', mcfg(c), SPEC, name='Sleep-graph-' + tag, dump_dot=True, must_pass=True, timeout=3000)
     nodes, edges, init = vlib.tlaval.parse_dot(os.path.join(rc.dir, 'graph.dot'))
     mkeys = {nid: model_key(vlib.tlaval.parse_state(t)) for nid, t in nodes.items()}
@@ -96,18 +148,18 @@ def graph_part(ctx, drv, c, tag, batch):
         tag, dcfg(c), len(g['states']), len(g['edges']), g['runs'], g['steps']))
     ctx.extra.setdefault('real_graph', {})[tag] = dict(config=dcfg(c), states=len(g['states']), edges=len(g['edges']),
                                                        runs=g['runs'], steps=g['steps'])
-    # every transition of the REAL graph covered by root paths: P-level segments
-    paths, ncov, ne = vlib.real_graph_paths(g, rng=ctx.rng)
-    for k, p in enumerate(paths):
-        seg = [reset_ev(c, path=k)]
-        for e in p:
-            seg.extend(e['events'] or [])
-        batch.append((seg, dict(kind='graph path', config=dcfg(c), moves=[e['move'] for e in p])))
-    ctx.extra.setdefault('real_edges_covered_by_ptraces', {})[tag] = ncov
-    ctx.sample(dict(kind='real-graph-path', config=dcfg(c), moves=[e['label'] for e in paths[0][:24]]))
+    # ---- P-level: every path of the REAL graph against the P-spec
+    bad = pgraph(ctx, c, g, 'pgraph-' + tag)
+    if bad is None:
+        ctx.traces += len(g['edges'])
+    else:
+        ctx.violation('real pkg/sleep behaviour (path of the real-code graph, config %s) rejected by the C19 P-spec at: %s' % (
+            dcfg(c), json.dumps(bad['rejected'])), dict(kind='graph path', config=dcfg(c), moves=bad['moves'], events=bad['events']))
+    ctx.sample(dict(kind='real-graph-edges', config=dcfg(c),
+                    edges=[dict(move=e['label'], events=e['events']) for e in g['edges'][:6]]))
     if g.get('nondeterminism'):
-        return 'real code not deterministic under the gate scheduler (%s): %s' % (dcfg(c), g['nondeterminism'][:2])
-    # I-level: graph equality (drift only)
+        return g, 'real code not deterministic under the gate scheduler (%s): %s' % (dcfg(c), g['nondeterminism'][:2]), bad is not None
+    # ---- I-level: graph equality (drift only)
     rk = {k: real_key(st) for k, st in g['states'].items()}
     redges = set((rk[e['src']], e['label'], rk[e['dst']]) for e in g['edges'])
     cmp_ = vlib.compare_graphs(medges, redges)
@@ -116,7 +168,7 @@ def graph_part(ctx, drv, c, tag, batch):
     if cmp_['n_model_only'] or cmp_['n_real_only']:
         ctx.model_drift('real pkg/sleep graph (%s) differs from the I-spec: model-only %s real-only %s' % (
             dcfg(c), cmp_['model_only'][:2], cmp_['real_only'][:2]))
-    return None
+    return g, None, bad is not None
 
 
 def selftest_traces(base):
@@ -170,7 +222,7 @@ def run(ctx):
     # ---- E1: I-spec, every schedule of the small configurations; safety everywhere, liveness on the smaller ones
     e1 = ctx.pick([((2, (1, 2), 2, 2, True), False), ((1, (1, 1), 1, 1, False), True)],
                   [((2, (1, 1, 2), 2, 2, True), False), ((2, (1, 1, 2, 2), 1, 1, True), False), ((3, (1, 2, 3), 1, 1, True), False),
-                   ((2, (1, 2), 2, 1, False), False), ((2, (1, 2), 2, 2, True), True), ((1, (1, 1), 2, 1, False), True)])
+                   ((2, (1, 2), 2, 1, False), False), ((2, (1, 2), 1, 2, True), True), ((1, (1, 1), 2, 1, False), True)])
     cov = {}
     for k, (c, lv) in enumerate(e1):
         r = ctx.tlc('MCSleep', mcfg(c, properties=LIVE if lv else ()), SPEC, name='Sleep-e1-%d' % k, coverage=True,
@@ -182,23 +234,29 @@ def run(ctx):
         raise vlib.Inconclusive('vacuity: actions never taken in the Sleep E1 runs: %s' % zero)
     ctx.extra['action_counts'] = cov
 
-    # ---- E1 + E2: model graph vs complete real-code graph (drift); edge cover of the real graph -> batch
-    batch = []          # (segment, replay info) of every real-code trace to validate against the P-spec
+    # ---- E1 + E2 + P-level: model graph vs complete real-code graph (drift); every path of the real graph
+    # ---- against the P-spec (violations)
     gconfs = ctx.pick([('a', (1, (1, 1), 1, 1, True)), ('c', (1, (1,), 1, 1, False))],
                       [('a', (1, (1, 1), 2, 1, True)), ('b', (2, (1, 2), 1, 2, False)), ('c', (2, (1, 2), 1, 1, True)),
                        ('d', (1, (1,), 1, 1, False))])
-    nondet = []
+    nondet, grej, small = [], False, None
     for tag, c in gconfs:
-        nd = graph_part(ctx, drv, c, tag, batch)
+        g, nd, bad = graph_part(ctx, drv, c, tag)
+        grej = grej or bad
         if nd:
             nondet.append(nd)
+        if small is None or len(g['edges']) < len(small[1]['edges']):
+            small = (c, g)
     fr = [v['fraction'] for v in ctx.extra.get('graph_compare', {}).values()]
     if fr:
         ctx.extra['replayed_transition_fraction'] = min(fr)
-    ngraph = len(batch)
+    if nondet and not grej:
+        raise vlib.Inconclusive('; '.join(nondet))
+    batch = []          # (segment, replay info) of every recorded real-code schedule to validate against the P-spec
+    ngraph = 0
 
     # ---- seeded random schedules: up to 8 waker goroutines
-    rconfs = ctx.pick([('3:r8:2:3:r', 150), ('2:r4:3:2:r', 150)],
+    rconfs = ctx.pick([('3:r8:2:3:r', 100), ('2:r4:3:2:r', 100)],
                       [('3:r8:2:3:r', 1000), ('2:r4:3:3:r', 1000), ('1:r6:2:2:r', 500)])
     for k, (rc_, runs) in enumerate(rconfs):
         tp = os.path.join(ctx.work, 'random-%d.ndjson' % k)
@@ -229,8 +287,36 @@ def run(ctx):
         ctx.violation('real pkg/sleep behaviour (%s, config %s) rejected by the C19 P-spec at event %d: %s' % (
             info['kind'], info['config'], ln, json.dumps(seg[ln]) if ln < len(seg) else '?'),
             dict(events=seg[:ln + 1], **info))
-    if nondet and not rej:
-        raise vlib.Inconclusive('; '.join(nondet))
+
+    # ---- free-running stress (no gate scheduler) with pre-emption injected at the hook points, under the race
+    # ---- detector when the toolchain can build it: exploration-grade last layer (thorough tier)
+    if ctx.thorough():
+        try:
+            sdrv, racy = ctx.go_build('sleepd', race=True), True
+        except vlib.Inconclusive:
+            sdrv, racy = drv, False
+        sargs = ['stress', '8', '3', '3000', str(ctx.seed), '6']
+
+        def stress_once():
+            p = ctx.run([sdrv] + sargs, ok_rc=None, timeout=3000)
+            err = p.stderr.decode('utf-8', 'replace')
+            if p.returncode == 66 or 'DATA RACE' in err:
+                raise vlib.Inconclusive('race detector report while stressing pkg/sleep (no verdict on C19):\n' + err[:3000])
+            if p.returncode != 0:
+                raise vlib.Inconclusive('stress driver failed rc=%d:\n%s' % (p.returncode, err[-3000:]))
+            rounds = json.loads(p.stdout)['rounds']
+            return rounds, [r for r in rounds if r['stuck'] or r['mismatch'] or r['invented'] or not r['reattach_ok']]
+        rounds, sbad = stress_once()
+        if sbad:
+            _r2, sbad2 = stress_once()
+            if not sbad2:
+                raise vlib.Inconclusive('stress failure not reproducible: %s' % sbad[:1])
+            ctx.violation('free-running stress of the real pkg/sleep: notification lost / sleeper stuck / re-attachment failed: %s' % (
+                json.dumps(sbad[0])), dict(kind='stress', args=sargs, race=racy, rounds=sbad[:2], again=sbad2[:2]))
+        else:
+            ctx.traces += len(rounds)
+        ctx.extra['stress'] = dict(race_detector=racy, rounds=len(rounds), asserts=sum(r['asserts'] for r in rounds),
+                                   fetches=sum(r['fetches'] for r in rounds), injected_yields=sum(r['yields'] for r in rounds))
 
     # ---- binding self-test: corrupted / event-dropped / semantically wrong traces must be rejected, a legal one accepted
     base = None
@@ -242,7 +328,7 @@ def run(ctx):
     if base is None:
         raise vlib.Inconclusive('binding self-test: no random run with a successful Fetch')
     good, tests = selftest_traces(base)
-    names = sorted(tests) if ctx.thorough() else ['corrupt-id', 'lost-wake']
+    names = sorted(tests) if ctx.thorough() else ['corrupt-id']
     a, rj = vlib.validate_segments(ctx, 'TraceSleepProp', TCFG, SPEC, [good] + [tests[n] for n in names], name='selftest',
                                    count=False, max_reruns=len(names) + 2)
     rejected = set(si for si, _ln in rj)
@@ -251,6 +337,9 @@ def run(ctx):
     missed = [n for i, n in enumerate(names) if i + 1 not in rejected]
     if missed:
         raise vlib.Inconclusive('binding self-test failed: bad traces accepted: %s' % missed)
+    if pgraph(ctx, small[0], small[1], 'selftest-graph', corrupt=True) is None:
+        raise vlib.Inconclusive('binding self-test failed: real graph with a corrupted Fetch result accepted')
+    names = names + ['graph with a corrupted Fetch result']
     ctx.extra['binding_selftest'] = 'rejected: ' + ', '.join(names) + '; legal trace with a coalesced early-returning Assert accepted'
     ctx.assumptions += ['Go runtime gopark/goready and sync/atomic trusted; commitSleep+gopark is one step',
                         'hook granularity = one atomic operation per step (no coarser place); goroutine-local work rides with the preceding atomic operation',
